@@ -98,10 +98,19 @@ def _args(kind):
     raise ValueError(kind)
 
 
-def leaf_pickle(globs):
+_INST_ITEMS = {"empty": b"", "tuple12": b"(K\x01K\x02t", "latin": b"X\x01\x00\x00\x00aX\x06\x00\x00\x00latin1",
+               "bytes": b"C\x02hi", "f4": b"X\x02\x00\x00\x00f4", "tag": b"X\x03\x00\x00\x00s07",
+               "onep1": b"X\x03\x00\x00\x001+1"}  # fmt: skip
+
+
+def leaf_pickle(globs, inst=False):
     # qualified (dotted) names are only resolvable at protocol >= 4
     out = (b"\x80\x04" if any("." in n for _m, n, _k in globs) else b"") + b"("
     for m, n, kind in globs:
+        if inst and kind is not None and "." not in n:
+            # the protocol-0 way of resolving and calling a global: no GLOBAL / STACK_GLOBAL opcode
+            out += b"(" + _INST_ITEMS[kind] + f"i{m}\n{n}\n".encode()
+            continue
         out += f"c{m}\n{n}\n".encode()
         if kind is not None:
             out += _args(kind) + b"R"
@@ -157,7 +166,7 @@ def torch_container(kind, seed):
     return data, names
 
 
-def build(leaf_globs, loaders):
+def build(leaf_globs, loaders, inst=False):
     if leaf_globs and leaf_globs[0][0] in ("torch_zip", "torch_legacy"):
         inner, names = torch_container(leaf_globs[0][0], leaf_globs[0][1])
         data = wrap(inner, "torch._load_from_bytes")
@@ -166,7 +175,7 @@ def build(leaf_globs, loaders):
             data = wrap(data, ld)
             names.update(LOADER_GLOBALS[ld])
         return data, names
-    data = leaf_pickle(leaf_globs)
+    data = leaf_pickle(leaf_globs, inst)
     for ld in reversed(loaders):
         data = wrap(data, ld)
     names = {(m, n) for m, n, _ in leaf_globs}
@@ -186,7 +195,10 @@ def base_allowlist():
     return _BASE["s"]
 
 
-LAYERS = ("none", "arm", "context")  # fickling's other guard layered on top of the environment
+# fickling's other guard layered on top of the environment ("context_left": a with-block entered and
+# left again before the load; the environment is still the active one); "+inst": the leaf resolves
+# its globals with INST instead of GLOBAL
+LAYERS = ("none", "arm", "context", "context_left", "none+inst", "context_left+inst")
 STREAMS = ("bytesio", "named_file", "fd_file")  # what the file entry points are handed
 
 
@@ -250,9 +262,10 @@ def check(leaf_globs, loaders, entry, additions, layer="none", stream="bytesio")
     import fickling.hook as hook
 
     reset_pickle_bindings()
-    data, names = build(leaf_globs, loaders)
+    layer, _, enc = layer.partition("+")
+    data, names = build(leaf_globs, loaders, inst=(enc == "inst"))
     case = {"leaf": [list(g) for g in leaf_globs], "loaders": list(loaders), "entry": entry,
-            "additions": list(additions), "layer": layer, "stream": stream}  # fmt: skip
+            "additions": list(additions), "layer": layer + (_ + enc), "stream": stream}  # fmt: skip
     allowed = set(base_allowlist()) | {tuple(a.rsplit(".", 1)) for a in additions}
     foreign = sorted(names - allowed)
     stock = None
@@ -269,6 +282,9 @@ def check(leaf_globs, loaders, entry, additions, layer="none", stream="bytesio")
         elif layer == "context":
             ctx = fickling.check_safety()
             ctx.__enter__()
+        elif layer == "context_left":
+            with fickling.check_safety():
+                pass
         with mon.watch() as events:
             got, log = outcome_of(entry, data, stream)
         resolved = [(e[1], e[2]) for e in events if e[0] == "pickle.find_class"]
@@ -292,7 +308,7 @@ def check(leaf_globs, loaders, entry, additions, layer="none", stream="bytesio")
         if log and ("verif_sink", "sink") not in allowed:
             return fail(f"blocked load still ran the sink: {log!r}")
         return None
-    if layer != "none" and got == ("raised", "UnsafeFileError") and not log:
+    if layer in ("arm", "context") and got == ("raised", "UnsafeFileError") and not log:
         return None  # the layered safety check may object to a pickle the allowlist admits
     if got != stock[0] or log != stock[1]:
         return fail(f"all globals are allowed but the outcome {got} / sink {log!r} differs from the stock one {stock}")
